@@ -704,6 +704,15 @@ func (fc *FnCtx) makeSlice(x *ssa.MakeSlice) {
 	d := fc.desc(x.Pos(), x.String())
 	maxLen := Term{"maxAlloc", SInt}
 	fc.oblige("makelen", d, x.Pos(), And(Le(IntLit(0), ln), Le(ln, cp), Le(Mul(cp, IntLit(fc.eng.sizeofType(elem))), maxLen)))
+	if fc.c != nil && fc.c.MaxAlloc != "" && !fc.pureMode {
+		// allocation proportional to the input: no size taken from an untrusted field may make the
+		// function allocate more than the stated bound
+		if sv, err := fc.specExpr(fc.entryEnv(), fc.c.MaxAlloc); err != nil {
+			fc.unbound = append(fc.unbound, fmt.Sprintf("max-alloc %q: %v", fc.c.MaxAlloc, err))
+		} else if bt, ok := fc.toIntTerm(sv); ok {
+			fc.oblige("makelen", d+" allocates at most "+fc.c.MaxAlloc+" bytes", x.Pos(), Le(Mul(cp, IntLit(fc.eng.sizeofType(elem))), bt))
+		}
+	}
 	obj := fc.define(fc.freshName("obj_"+x.Name()), st.next)
 	st.next = fc.define(fc.freshName("next"), Add(st.next, IntLit(1)))
 	fc.zeroObject(st, obj)
